@@ -745,7 +745,7 @@ func (x *Exec) applyContract(s *State, in *ssa.Call, fc *FuncContract, callee *s
 	}
 	// ghost history variables: updated by the call rule itself
 	for _, cl := range fc.clauses("ghost") {
-		if streams {
+		if streams || strings.HasPrefix(cl.Name, "buf(") {
 			x.applyGhost(s, env, cl, pre, recv)
 		}
 	}
